@@ -57,7 +57,10 @@ type Scenario struct {
 	TimeoutMs  int    `json:"timeout_ms"`  // cfg.Proxy.ReadTimeout
 	AckMs      int    `json:"ack_ms"`      // how long the backend waits for the client's ack before it goes on regardless
 	HoldMs     int    `json:"hold_ms"`     // how long a "stall" holds the socket before the backend gives up and closes
-	Route      string `json:"route"`       // proxy (/olla/proxy/..., bytes relayed verbatim) | anthropic (/olla/anthropic/v1/messages: the backend's OpenAI SSE is translated on the fly; acknowledgement = the client saw new bytes)
+	// NoResponseTimeout: proxy.response_timeout is 0 ("disabled", what the documentation recommends for long
+	// generations); the configured read_timeout is what cuts off a stalled backend either way
+	NoResponseTimeout bool   `json:"no_response_timeout,omitempty"`
+	Route             string `json:"route"` // proxy (/olla/proxy/..., bytes relayed verbatim) | anthropic (/olla/anthropic/v1/messages: the backend's OpenAI SSE is translated on the fly; acknowledgement = the client saw new bytes)
 }
 
 type ChunkObs struct {
@@ -68,32 +71,32 @@ type ChunkObs struct {
 }
 
 type BackendObs struct {
-	Got        bool       `json:"got"`
-	ReqUs      int64      `json:"req_us"`
-	HdrUs      int64      `json:"hdr_us"`
-	Chunks     []ChunkObs `json:"chunks"`
-	EndKind    string     `json:"end_kind"` // eof | reset | released (stall given up after hold) | torn (proxy closed the upstream connection first) | ""
-	EndUs      int64      `json:"end_us"`
-	TornUs     int64      `json:"torn_us"` // when the backend saw its connection closed by the proxy (-1: it never did before closing itself)
-	Requests   int        `json:"requests"` // scripted requests that reached this backend (1 unless something retried)
-	OpenAtEnd  int64      `json:"open_at_end"`
+	Got       bool       `json:"got"`
+	ReqUs     int64      `json:"req_us"`
+	HdrUs     int64      `json:"hdr_us"`
+	Chunks    []ChunkObs `json:"chunks"`
+	EndKind   string     `json:"end_kind"` // eof | reset | released (stall given up after hold) | torn (proxy closed the upstream connection first) | ""
+	EndUs     int64      `json:"end_us"`
+	TornUs    int64      `json:"torn_us"`  // when the backend saw its connection closed by the proxy (-1: it never did before closing itself)
+	Requests  int        `json:"requests"` // scripted requests that reached this backend (1 unless something retried)
+	OpenAtEnd int64      `json:"open_at_end"`
 }
 
 type ClientObs struct {
-	Err      string   `json:"err"`
-	SentUs   int64    `json:"sent_us"`
-	Status   int      `json:"status"`
-	HdrUs    int64    `json:"hdr_us"`
-	CT       string   `json:"ct"`
-	Chunked  bool     `json:"chunked"`
-	BodyLen  int      `json:"body_len"`
-	RLE      [][2]int `json:"rle"` // run-length encoding of the body bytes seen: [byte, count]
-	RLEOver  bool     `json:"rle_truncated,omitempty"`
-	End      string   `json:"end"` // clean | closed | reset | open | aborted | error
-	EndUs    int64    `json:"end_us"`
-	AbortUs  int64    `json:"abort_us"`
-	FirstUs  int64    `json:"first_us"` // first body byte
-	Reads    int      `json:"reads"`
+	Err     string   `json:"err"`
+	SentUs  int64    `json:"sent_us"`
+	Status  int      `json:"status"`
+	HdrUs   int64    `json:"hdr_us"`
+	CT      string   `json:"ct"`
+	Chunked bool     `json:"chunked"`
+	BodyLen int      `json:"body_len"`
+	RLE     [][2]int `json:"rle"` // run-length encoding of the body bytes seen: [byte, count]
+	RLEOver bool     `json:"rle_truncated,omitempty"`
+	End     string   `json:"end"` // clean | closed | reset | open | aborted | error
+	EndUs   int64    `json:"end_us"`
+	AbortUs int64    `json:"abort_us"`
+	FirstUs int64    `json:"first_us"` // first body byte
+	Reads   int      `json:"reads"`
 }
 
 type Obs struct {
@@ -105,17 +108,17 @@ type Obs struct {
 // ---------------------------------------------------------------- backend
 
 type Backend struct {
-	ln     net.Listener
-	addr   string
-	open   int64
-	mu     sync.Mutex
-	sc     *Scenario
-	t0     time.Time
-	acks   []chan struct{}
-	prog   *int64 // body bytes the client has seen so far (route anthropic: acknowledgement by activity)
-	obs    *BackendObs
-	done   chan struct{} // closed when the scripted request has been fully played
-	once   sync.Once
+	ln   net.Listener
+	addr string
+	open int64
+	mu   sync.Mutex
+	sc   *Scenario
+	t0   time.Time
+	acks []chan struct{}
+	prog *int64 // body bytes the client has seen so far (route anthropic: acknowledgement by activity)
+	obs  *BackendObs
+	done chan struct{} // closed when the scripted request has been fully played
+	once sync.Once
 }
 
 func NewBackend() *Backend {
@@ -636,11 +639,14 @@ type Rig struct {
 	B *Backend
 }
 
-func StartRig(engine, profile string, forced bool, timeoutMs int) (*Rig, error) {
+func StartRig(engine, profile string, forced bool, timeoutMs int, noResponseTimeout ...bool) (*Rig, error) {
 	b := NewBackend()
 	prio := 100
 	s, err := stack.Start(stack.Opts{Engine: engine, Balancer: "priority", Profile: profile, Mutate: func(cfg *config.Config) {
 		cfg.Proxy.ReadTimeout = time.Duration(timeoutMs) * time.Millisecond
+		if len(noResponseTimeout) > 0 && noResponseTimeout[0] {
+			cfg.Proxy.ResponseTimeout = 0
+		}
 		cfg.Discovery.Static.Endpoints = []config.EndpointConfig{{
 			URL: b.URL(), Name: "T", Type: "openai", Priority: &prio,
 			HealthCheckURL: "/health", ModelURL: "/v1/models", CheckInterval: 10 * time.Minute, CheckTimeout: 2 * time.Second,
@@ -720,12 +726,12 @@ func (r *Rig) Play(sc *Scenario) *Obs {
 
 // Leak is the measured (not proved) leak clause for one batch.
 type Leak struct {
-	GoBase    int   `json:"go_base"`
-	GoAfter   int   `json:"go_after"`
-	ConnsBase int64 `json:"conns_base"`
+	GoBase     int   `json:"go_base"`
+	GoAfter    int   `json:"go_after"`
+	ConnsBase  int64 `json:"conns_base"`
 	ConnsAfter int64 `json:"conns_after"`
-	SettleMs  int64 `json:"settle_ms"`
-	Scenarios int   `json:"scenarios"`
+	SettleMs   int64 `json:"settle_ms"`
+	Scenarios  int   `json:"scenarios"`
 }
 
 // stable polls f until it returns the same value three times 25 ms apart (max wait), returning the last value.
@@ -758,7 +764,7 @@ func RunBatch(scs []*Scenario) ([]*Obs, Leak) {
 		wg.Add(1)
 		go func(i int) {
 			defer wg.Done()
-			r, err := StartRig(scs[i].Engine, scs[i].Profile, scs[i].Forced, scs[i].TimeoutMs)
+			r, err := StartRig(scs[i].Engine, scs[i].Profile, scs[i].Forced, scs[i].TimeoutMs, scs[i].NoResponseTimeout)
 			if err != nil {
 				out[i] = &Obs{StartErr: err.Error()}
 				return
